@@ -56,6 +56,11 @@ def gen_pair(ck: Check, diffuse: bool):
     elif mode < 0.3:
         r1 = 10 ** rng.uniform(-10, 10)
         r2 = r1 * 10 ** rng.uniform(-3, 3)
+    elif mode < 0.42:
+        # nearly (not exactly) equal radii, down to a few ulp apart - a nearly monodisperse emulsion - and exactly equal ones
+        r1 = 10 ** rng.uniform(-3, 3)
+        r2 = r1 * (1 + rng.choice([0.0, 1e-15, 3e-12, 9e-7, -4e-7, 1e-5, -2e-9]))
+        ck.count("nearly_equal_radii")
     else:
         r1, r2 = 10 ** rng.uniform(-2, 2), 10 ** rng.uniform(-2, 2)
     if rng.random() < 0.5:
